@@ -263,3 +263,42 @@ def c144(ctx):
         dl = ctx.calls(R, f, r"sst::setsum::Setsum::del$")
         p = P.reach(f, P.ENTRY, P.return_points(f), avoid=set(put) | set(dl))
         ctx.check(R, f, "dispatch", p is None, "insert dispatches to put or del on every path", "insert can return without accumulating", path=p)
+        # which arm: a value goes to put (with that value, the entry's key and timestamp), its absence to del
+        for pt in put:
+            t = P.term_at(f, pt)
+            g = [lab for bb, lab, srcs in K.guards(f, pt) if any(s_["k"] == "field" and s_["f"] == "value" for s_ in srcs)]
+            val_ok = any(s_["k"] == "field" and s_["f"] == "value" for s_ in P.origins(f, t["args"][3]))
+            key_ok = any(s_["k"] == "field" and s_["f"] == "key" for s_ in P.origins(f, t["args"][1]))
+            ts_ok = any(s_["k"] == "field" and s_["f"] == "timestamp" for s_ in P.origins(f, t["args"][2]))
+            ctx.check(R, f, "put-arm", g == ["sw:1"] and val_ok and key_ok and ts_ok, "an entry with a value is accumulated by put(key, timestamp, value)",
+                      "insert calls put on the wrong arm or with other operands (guards %s, value %s, key %s, timestamp %s)" % (g, val_ok, key_ok, ts_ok), pt=pt)
+        for pt in dl:
+            t = P.term_at(f, pt)
+            g = [lab for bb, lab, srcs in K.guards(f, pt) if any(s_["k"] == "field" and s_["f"] == "value" for s_ in srcs)]
+            key_ok = any(s_["k"] == "field" and s_["f"] == "key" for s_ in P.origins(f, t["args"][1]))
+            ts_ok = any(s_["k"] == "field" and s_["f"] == "timestamp" for s_ in P.origins(f, t["args"][2]))
+            ctx.check(R, f, "del-arm", g == ["sw:0"] and key_ok and ts_ok, "an entry without a value is accumulated by del(key, timestamp)",
+                      "insert calls del on the wrong arm or with other operands (guards %s)" % g, pt=pt)
+    # within one frame the pieces come in the same order in put and del (tag, key, timestamp[, value]): the verifier and the
+    # builders must hash an entry identically wherever it is accumulated
+    order = {}
+    for name in ("put", "del"):
+        f = ctx.fn(R, "sst::setsum::Setsum::" + name)
+        if not f:
+            continue
+        for pt in P.call_points(f, r"^setsum::Setsum::insert_vectored$"):
+            for s_ in P.origins(f, P.term_at(f, pt)["args"][1]):
+                if s_["k"] == "agg" and s_["st"]["rv"].get("array"):
+                    seq = []
+                    for o in s_["st"]["rv"]["ops"]:
+                        srcs = P.origins(f, o)
+                        if any(x["k"] == "const" and "bytes" in x for x in srcs):
+                            seq.append("tag")
+                        elif any(x["k"] == "call" and x["callee"].endswith("to_le_bytes") for x in srcs):
+                            seq.append("timestamp")
+                        else:
+                            ps = sorted({x["i"] for x in srcs if x["k"] == "param"})
+                            seq.append({2: "key", 4: "value"}.get(ps[0], "p%s" % ps) if ps else "?")
+                    order[name] = seq
+    ctx.check(R, "sst::setsum::Setsum", "piece-order", order.get("put") == ["tag", "key", "timestamp", "value"] and order.get("del") == ["tag", "key", "timestamp"],
+              "frames are [tag, key, timestamp(le), value] and [tag, key, timestamp(le)]", "frame layouts are %s" % order)
